@@ -53,6 +53,7 @@ class Recorder(object):
 
 
 REC = Recorder()
+EXTRA = {}
 
 
 def repo_path():
@@ -189,6 +190,7 @@ def run_scenario(scn):
         res['faults'][k] = res['faults'].get(k, 0) + v
   except Exception:
     pass
+  res.update(EXTRA)
   res['wall'] = round(_REAL_PERF() - wall0, 4)
   return res
 
